@@ -1,4 +1,5 @@
 """translator whitelist for C02 (view factories, stepping / transposing locator constructors)"""
+import re
 from cxx2lean import Sym
 F = "boost/gil/image_view_factory.hpp"
 LOC = "boost/gil/locator.hpp"
@@ -88,4 +89,33 @@ for which, tag in ((0, "y"), (1, "xy")):
         SYMS.append(vctor(which, "vloc_%s_%s" % (tag, nm), grp, VP,
                           "virtual_2d_locator %s-step constructor: %s component of the new step (%s result type)" % (
                               tag, nm[-1], "transposed" if nm.startswith("tr") else "untransposed")))
+# ---- channel views of basic (memory based) views: __nth_channel_view_basic / __kth_channel_view_basic ::make and the `adjacent` predicate.
+# Outputs: ox oy = the pixel whose channel address is taken, ch = which channel, xstep / ystep = steps of the new locator, dw dh = dimensions.
+COUT = ["ox", "oy", "ch", "xstep", "ystep", "dw", "dh"]
+CPARAMS = [("n", "int"), ("K", "int"), ("pixel_size", PD), ("row_size", PD), ("chan_size", PD), ("w", PD), ("h", PD)] + [(o, PD) for o in COUT]
+CSRC = [(r"src\.pixels\(\)\.pixel_size\(\)", "pixel_size"), (r"src\.pixels\(\)\.row_size\(\)", "row_size")] + SRC
+PIX00 = r"src(?:\.pixels\(\))?\((" + BAL + r"),(" + BAL + r")\)"
+NTH_ADDR = r"&\(" + PIX00 + r"\[(" + BAL + r")\]\)"                    # &(src.pixels()(0,0)[n])
+KTH_ADDR = r"&gil::at_c<(\w+)>\(" + PIX00 + r"\)"                       # &gil::at_c<K>(src.pixels()(0,0))
+def chan_make(kth, adjacent):
+    name = "__kth_channel_view_basic<K,View,%s>" % ("true" if adjacent else "false") if kth else "__nth_channel_view_basic<View,%s>" % ("true" if adjacent else "false")
+    sig = r"static type make\(View const& src\)" if kth else r"static type make\(View const& src, int n\)"
+    addr = KTH_ADDR if kth else NTH_ADDR
+    grp = (r"\2", r"\3", r"\1") if kth else (r"\1", r"\2", r"\3")           # ox, oy, ch
+    if adjacent:
+        # interleaved_view(w, h, (gray pixel pointer)&channel, row bytes): the x step is the size of the pointee, one channel
+        sub = [(r"return interleaved_view\((" + BAL + r"),(" + BAL + r"),\(x_iterator_t\)" + addr + r",\s*(" + BAL2 + r")\);",
+                "dw = \\1; dh = \\2; ox = \\%d; oy = \\%d; ch = \\%d; xstep = chan_size; ystep = \\6;" % tuple(int(g[1]) + 2 for g in grp))]
+    else:
+        sub = [(r"x_iterator_t sit\(x_iterator_base_t\(" + addr + r"\),(" + BAL2 + r")\);", "ox = %s; oy = %s; ch = %s; xstep = \\4;" % grp),
+               (r"return type\(src\.dimensions\(\),locator_t\(sit, (" + BAL2 + r")\)\);", r"dw = w; dh = h; ystep = \1;")]
+    return Sym(F, r"struct " + re.escape(name) + r" \{.*?" + sig, "%s_channel_%s" % ("kth" if kth else "nth", "adjacent" if adjacent else "stepped"),
+               CPARAMS, outputs=COUT, subst=[(r"using [^;]*;", "")] + sub + CSRC,
+               doc="%s::make: pixel and channel whose address becomes the new origin, steps and dimensions of the channel view" % name)
+def adjacent(which, lean):
+    return Sym(F, r"static constexpr bool adjacent =\s*(.*?);", lean, [("is_step", "bool"), ("planar", "bool"), ("nch", "int")], ret="bool", expr=True, which=which,
+               subst=[(r"iterator_is_step<src_x_iterator>::value", "is_step"), (r"is_planar<src_x_iterator>::value", "planar"), (r"num_channels<View>::value", "nch")],
+               doc="%s: are the channels of the source's x-iterator adjacent in memory (then the channel view is a plain pointer view)" % ("__kth_channel_view" if which else "__nth_channel_view"))
+SYMS += [chan_make(False, False), chan_make(False, True), chan_make(True, False), chan_make(True, True),
+         adjacent(0, "nth_channel_is_adjacent"), adjacent(1, "kth_channel_is_adjacent")]
 NAMESPACE = "GilVerif.Gen.C02"
